@@ -41,7 +41,9 @@ impl WalArchiveRecovery {
             })
             .collect();
 
-        archives.sort();
+        // Log order, not file-name order: the id in `wal-<id>-<start>-<end>.wal.zst` is only
+        // zero-padded to five digits, so names stop sorting numerically at id 100000.
+        archives.sort_by_cached_key(|p| (Self::log_id_of(p), p.clone()));
 
         info!(
             target: "wal_archive_recovery::list_archives",
@@ -51,6 +53,16 @@ impl WalArchiveRecovery {
         );
 
         Ok(archives)
+    }
+
+    /// Log id encoded in an archive file name; names that do not follow the pattern sort last.
+    fn log_id_of(path: &Path) -> u64 {
+        path.file_name()
+            .and_then(|n| n.to_str())
+            .and_then(|n| n.strip_prefix("wal-"))
+            .and_then(|rest| rest.split('-').next())
+            .and_then(|id| id.parse::<u64>().ok())
+            .unwrap_or(u64::MAX)
     }
 
     /// Recover entries from a single archive file
